@@ -362,7 +362,7 @@ COQ_IMPORTS = ['PT.Base.Scalar', 'PT.Base.Field', 'PT.Base.BigSum', 'PT.Base.Mx'
 FORM_TEXT = ('T (trace refinement) + R (replay): %s run with the module-level callees wrapped from outside; the recorded call sequence '
              '(kind, site found by object identity, time argument / (dt/2), numiter, shapes, quantum-number arguments, answers) must be reproduced '
              'exactly by Model/Sweeps.v run with the recorded answers as oracle table (all cases: at Z[i] with zero tensors of the recorded shapes, '
-             'i.e. order / kinds / sites / time coefficients / shapes / charges; small cases (L <= 3, D <= 2, d = 2): at Q[i] with the recorded floats '
+             'i.e. order / kinds / sites / time coefficients / shapes / charges; small cases (L <= 3, D <= 3, d = 2): at Q[i] with the recorded floats '
              'as exact rationals, every environment block and tensor passed to a recorded call, compute_right_operator_blocks and the final tensors '
              'compared to 1e-9 inside Coq); the solver-call subsequence is compared with the schedule list of the theorems')
 TRUSTED = ['hand-written Gallina sweep skeletons (Model/Sweeps.v) tied to evolution.py / minimization.py by the trace correspondence on every case',
@@ -379,11 +379,22 @@ def mark_replay(cases, limit, nkey):
     for c in cases:
         if n >= limit:
             break
-        if (c['L'] <= 3 and c.get('Dmax', 2) <= 2 and c['model'] in ('xxz', 'ising', 'randherm', 'randherm_q') and c.get(nkey, 1) <= 2
+        if (c['L'] <= 3 and c.get('Dmax', 2) <= 3 and c['model'] in ('xxz', 'ising', 'randherm', 'randherm_q') and c.get(nkey, 1) <= 2
                 and c.get('repeat', 1) == 1 and c.get('numiter', 3) <= 4 and not c.get('complete')):
             c['replay'] = True
             n += 1
 
 
 def numeric_ok(case, H, psi):
-    return bool(case.get('replay') and len(H.qd) == 2 and max(psi.bond_dims) <= 2 and max(H.bond_dims) <= 5 and H.nsites <= 3)
+    """numeric replay (exact rational re-run inside Coq) for the marked small cases and for every small case whose
+    right-orthonormalised state still has a bond of dimension 2..3 (these exercise the transposes / absorptions non-trivially)"""
+    if not (len(H.qd) == 2 and H.nsites <= 3 and max(H.bond_dims) <= 5 and max(psi.bond_dims) <= 4):
+        return False
+    if case.get('replay'):
+        return max(psi.bond_dims) <= 3
+    if case.get('repeat', 1) != 1 or case.get('steps', case.get('sweeps', 1)) > 2:
+        return False
+    import copy
+    p2 = copy.deepcopy(psi)
+    p2.orthonormalize(mode='right')
+    return 2 <= max(p2.bond_dims) <= 3
